@@ -76,6 +76,27 @@ CHECKS['C14'] = dict(
          'installed); javac 17 is real.',
     technique=TECH + '; scripted peer with fault injection, ground-truth comparison')
 
+CHECKS['C02'] = dict(
+    engine='pipeline-sim + real javac peer', design='DESIGN.md §4 C02',
+    text='Batches of 1-3 Java programs generated one after the other in one simulated process, '
+         'original and erased texts written in the driver\'s layout and compiled by the real '
+         'javac 17 exactly as JavaCompiler builds the command, in a batch and alone; no error '
+         'diagnostic, batch verdict == solo verdict, and the tool\'s own output analysis agrees '
+         'with a line-anchored reading. Sampled seeds.',
+    note='Trusted: javac 17 as judge.',
+    technique=TECH + '; real compiler peer as judge, batch-vs-solo verdict stability')
+CHECKS['C06'] = dict(
+    engine='pipeline-sim monitors', design='DESIGN.md §4 C06',
+    text='Every distinct top-level is_subtype query issued during simulated pipeline runs is '
+         'judged for soundness against an independent declarative relation over the final class '
+         'table; all ordered pairs over <= 40 types of the finished program are judged for '
+         'soundness and, on the fragment the statement names, exactness. Decided only for what '
+         'the simulated system asks and for class tables its runs produce; exhaustive '
+         'enumeration over synthetic tables is a different technique and not claimed.',
+    note='Trusted: sim/refrel.py (declarative relation on snapshots). One genuine defect '
+         'repaired (C06-F1).',
+    technique=TECH + '; in-run monitor + post-run probe against a reference relation')
+
 NOT_YET = {
 }
 
